@@ -118,6 +118,7 @@ def run_nodes(nodes: List[Dict[str, Any]], data: Any, ctx: Dict[str, Any], *, tr
     try:
         result = p.process(Payload(data, ContextType(dict(ctx))))
         obs["final"] = (a_data(result.data), a_ctx(result.context))
+        obs["result"] = result          # the live objects the caller received
     except BaseException as exc:  # noqa: BLE001 - observation, re-classified below
         if isinstance(exc, (KeyboardInterrupt, SystemExit)):
             raise
